@@ -80,10 +80,16 @@ func DigestXapTar(r io.Reader, hash crypto.Hash, doPageHash bool) (*XapDigest, e
 
 func removeSignature(cd []byte) []byte {
 	size := len(cd)
+	if size < 10 {
+		return cd
+	}
 	var tr xapTrailer
 	_ = binary.Read(bytes.NewReader(cd[size-10:size]), binary.LittleEndian, &tr)
 	if tr.Magic == trailerMagic {
 		size -= int(tr.TrailerSize) + 10
+		if size < 0 {
+			return cd
+		}
 		return cd[:size]
 	}
 	return cd
